@@ -596,6 +596,11 @@ func TestVerifC20(t *testing.T) {
 			quiesce()
 			time.Sleep(2 * time.Minute)
 			synctest.Wait()
+			for _, a := range []string{"ms", "rs1"} { // cut whatever connection was leaked so that the scenario can end
+				cl.ResetConns(a)
+			}
+			time.Sleep(time.Minute)
+			synctest.Wait()
 			VerifHook = nil
 			ndj.Write(map[string]any{"ev": "reset", "scenario": p.name})
 			for _, e := range evs {
@@ -623,6 +628,98 @@ func TestVerifC20(t *testing.T) {
 				}
 				run(params{name: fmt.Sprintf("grid/nreg=%d/m=%d/order=%d/kill-during-probe", nreg, m, oi), nreg: nreg, m: m, order: o, killDuringProbe: true, queue: 2})
 			}
+		}
+	}
+	// the only region a server hosts is replaced (split, merge back) and its successors live at the same address: the
+	// healthy connection must be reused, not forgotten
+	for _, variant := range []string{"split", "split-then-merge", "move-away-and-back"} {
+		for _, queue := range []int{1, 3} {
+			name := fmt.Sprintf("replace/%s/q=%d", variant, queue)
+			synctest.Test(t, func(t *testing.T) {
+				tr := &verifsim.Trace{}
+				cl := verifsim.NewCluster(tr)
+				cl.AddServer("ms")
+				cl.AddServer("rs1")
+				cl.AddServer("rs2")
+				regs := cl.CreateTable("t", nil, []string{"rs1"})
+				var mu sync.Mutex
+				var evs []map[string]any
+				emit := func(e map[string]any) { mu.Lock(); evs = append(evs, e); mu.Unlock() }
+				host := func(name string) string {
+					if name == "hbase:meta,,1" {
+						return "ms"
+					}
+					for _, r := range cl.OnlineRegions("t") {
+						if string(r.Name) == name {
+							return r.Host
+						}
+					}
+					return "rs1"
+				}
+				VerifHook = func(point string, c any, arg any) {
+					if point == "clientDown.removed" {
+						if r, ok := arg.(hrpc.RegionInfo); ok {
+							emit(map[string]any{"ev": "declaredDead", "addr": host(string(r.Name()))})
+						}
+					}
+				}
+				cl.DialHook = func(addr string) { emit(map[string]any{"ev": "dial", "addr": addr}) }
+				c := newSimClient(cl, RpcQueueSize(queue))
+				get := func(k string) {
+					g, _ := hrpc.NewGet(context.Background(), []byte("t"), []byte(k))
+					if _, err := c.Get(g); err != nil {
+						rep.bad("request-failed", "%s: get %q failed: %v", name, k, err)
+					}
+				}
+				quiesce := func() {
+					time.Sleep(200 * time.Millisecond)
+					synctest.Wait()
+					open := []map[string]any{}
+					for _, a := range []string{"ms", "rs1", "rs2"} {
+						open = append(open, map[string]any{"addr": a, "n": cl.OpenConns(a)})
+					}
+					emit(map[string]any{"ev": "quiesce", "open": open})
+				}
+				get("a")
+				quiesce()
+				switch variant {
+				case "split", "split-then-merge":
+					a, b := cl.Split(regs[0], []byte("m"), "rs1", "rs1")
+					get("b")
+					get("x")
+					quiesce()
+					if variant == "split-then-merge" {
+						cl.Merge(a, b, "rs1")
+						get("c")
+						get("y")
+						quiesce()
+					}
+				case "move-away-and-back":
+					cl.Move(regs[0], "rs2")
+					get("b")
+					quiesce()
+					cl.Move(regs[0], "rs1")
+					get("c")
+					quiesce()
+				}
+				c.Close()
+				emit(map[string]any{"ev": "closeReturned"})
+				quiesce()
+				time.Sleep(2 * time.Minute)
+				synctest.Wait()
+				for _, a := range []string{"ms", "rs1", "rs2"} { // cut whatever connection was leaked so that the scenario can end
+					cl.ResetConns(a)
+				}
+				time.Sleep(time.Minute)
+				synctest.Wait()
+				VerifHook = nil
+				ndj.Write(map[string]any{"ev": "reset", "scenario": name})
+				for _, e := range evs {
+					ndj.Write(e)
+				}
+				rep.Scenarios++
+				rep.Distinct++
+			})
 		}
 	}
 	rng := rand.New(rand.NewSource(seed))
